@@ -492,13 +492,46 @@ def pruned(cfg: CFG, atom: Callable[[ast.AST, int], Tri], normal_only: bool = Tr
     """edge_ok for CFG searches: a branch whose condition is decided by `atom` only goes that way."""
     cache: dict[int, Tri] = {}
     busy: set[int] = set()
+    subject_of: dict[int, ast.AST] = {}
+    for st in ast.walk(cfg.fn):
+        if isinstance(st, ast.Match):
+            for c in st.cases:
+                subject_of[id(c)] = st.subject
+
+    def as_test(pat: ast.pattern, subj: ast.AST) -> ast.AST | None:
+        """`case <pattern>` read as a condition on the subject (value / or / wildcard patterns)."""
+        if isinstance(pat, ast.MatchValue):
+            return ast.Compare(left=subj, ops=[ast.Eq()], comparators=[pat.value])
+        if isinstance(pat, ast.MatchSingleton):
+            return ast.Compare(left=subj, ops=[ast.Is()], comparators=[ast.Constant(pat.value)])
+        if isinstance(pat, ast.MatchOr):
+            parts = [as_test(x, subj) for x in pat.patterns]
+            return ast.BoolOp(op=ast.Or(), values=parts) if all(x is not None for x in parts) else None  # type: ignore[arg-type]
+        if isinstance(pat, ast.MatchAs) and pat.pattern is None:
+            return ast.Constant(True)
+        return None
 
     def ok(a: int, _b: int, lab: str) -> bool:
         if normal_only and lab.startswith("exc:"):
             return False
+        n = cfg.nodes[a]
+        if n.kind == "case" and lab in ("case", "nocase") and id(n.ast) in subject_of:
+            if a not in cache:
+                t = as_test(n.ast.pattern, subject_of[id(n.ast)])  # type: ignore[union-attr]
+                v0: Tri = None
+                if t is not None and a not in busy:
+                    busy.add(a)
+                    try:
+                        v0 = tri(t, lambda e: atom(e, a))
+                        if v0 is True and n.ast.guard is not None:  # type: ignore[union-attr]
+                            v0 = tri(n.ast.guard, lambda e: atom(e, a))  # type: ignore[union-attr]
+                    finally:
+                        busy.discard(a)
+                cache[a] = v0
+            v1 = cache[a]
+            return v1 is None or v1 == (lab == "case")
         if lab not in ("true", "false"):
             return True
-        n = cfg.nodes[a]
         if n.kind == "test":
             test = n.ast
         elif n.kind == "while":
